@@ -178,6 +178,48 @@ bool validate_exec_safe(const std::string &line, bool writes_rax) {
   return true;
 }
 
+// ---- observed geometry ------------------------------------------------------------------------------
+struct GeoJob {
+  long initial = 0, after = 0;
+};
+static void geo_job(void *p) {
+  GeoJob *g = (GeoJob *)p;
+  lib::inst_t al = lib::create(nullptr, 0);
+  if (!al) return;
+  Island *is = island_of(lib::get_code(al, false));
+  if (is) g->initial = (long)is->req_len;
+  // append 10-byte lines until the mapping changes its size (or 40000 bytes were written)
+  static const char *chunk = "nop10\nnop10\nnop10\nnop10\nnop10\nnop10\nnop10\nnop10\nnop10\nnop10\n";
+  for (int i = 0; i < 400 && g->initial > 0; i++) {
+    if (lib::asm_str(al, chunk, false) != 0) break;
+    Island *now = island_of(lib::get_code(al, false));
+    if (now && (long)now->req_len != g->initial) {
+      g->after = (long)now->req_len;
+      break;
+    }
+  }
+  lib::destroy(al);
+}
+const LibGeometry &lib_geometry() {
+  static LibGeometry geo;
+  static bool done = false;
+  if (done) return geo;
+  done = true;
+  GeoJob j;
+  OpCtx ctx;
+  ctx.reset_op(nullptr, 0);
+  World w;
+  sim_begin_run(w);
+  int jc = run_in_lib(&ctx, geo_job, &j, 50000000);
+  sim_end_run();
+  if (jc == J_NONE && j.initial >= 64 && j.after > j.initial) {
+    geo.initial = j.initial;
+    geo.step = j.after - j.initial;
+    geo.observed = true;
+  }
+  return geo;
+}
+
 // ---- NOP decoder ------------------------------------------------------------------------------------
 int nop_len_at(const uint8_t *p, long avail) {
   long i = 0;
